@@ -194,8 +194,16 @@ func genLock(seed uint64, tier, variant string) any {
 	if variant == "fresh" {
 		// directed: another client deletes a name's keys in the step after a Locker's script has set them, while the
 		// reply is still on its way - the invalidation then travels right behind the reply of the acquisition
-		for i, n := 0, 1+r.IntN(3); i < n; i++ {
-			p.Ghosts = append(p.Ghosts, LockGhost{MinStep: r.IntN(300), Kind: "del-fresh", Name: pick(r, p.Names...)})
+		// the clock only moves when nothing else can: whatever a notification sets in motion has then run its course, and
+		// a holder that is still live below its majority is waiting for a timer (rule loss-not-noticed-when-idle)
+		p.Sim.TickWeight = 1e-7
+		p.Sim.CutProb = pick(r, 0.0, 0.0, 0.3) // mostly whole deliveries: the reply and the invalidation arrive in one read
+		for i, n := 0, 1+r.IntN(5); i < n; i++ {
+			g := LockGhost{MinStep: r.IntN(150), Kind: "del-fresh", Name: pick(r, p.Names...)}
+			if r.IntN(4) == 0 {
+				g.Idx = []int{0} // marker: delete every key of that attempt, not only the one just set
+			}
+			p.Ghosts = append(p.Ghosts, g)
 		}
 		for ti := range p.Tasks {
 			for oi := range p.Tasks[ti] {
@@ -290,6 +298,8 @@ type lockSess struct {
 	released      bool
 	notOwning     bool
 	notOwningAt   time.Time
+	sibling       bool // another call of the same Locker on the same name was acquiring while this one was acquiring or holding
+	actEnd        int  // last step in which this call was seen acquiring (waiting, trying, or an acquire script of it ran)
 	maxOwned      int
 	flagged       map[string]bool
 }
@@ -329,6 +339,7 @@ type lockMon struct {
 	freshStep   map[string]int    // per name: step in which a Locker's script last set one of its keys
 	freshVal    map[string]string // ... and the value it wrote
 	freshDone   map[int]bool      // del-fresh ghosts already applied (index into the plan's ghosts)
+	freshKeys   map[string][]string // ... and the keys set in that step
 }
 
 func (m *lockMon) note(format string, a ...any) {
@@ -479,9 +490,13 @@ func (m *lockMon) apply(argv []string, reply resp.Value, at time.Time, scriptVal
 		m.mirror[argv[1]] = mirrorEnt{val: argv[2], exp: exp}
 		if nm, _, ok := m.parseKey(argv[1]); ok && inScript {
 			if m.freshStep == nil {
-				m.freshStep, m.freshVal = map[string]int{}, map[string]string{}
+				m.freshStep, m.freshVal, m.freshKeys = map[string]int{}, map[string]string{}, map[string][]string{}
+			}
+			if m.freshStep[nm] != m.e.sim.Step {
+				m.freshKeys[nm] = nil
 			}
 			m.freshStep[nm], m.freshVal[nm] = m.e.sim.Step, argv[2]
+			m.freshKeys[nm] = append(m.freshKeys[nm], argv[1])
 		}
 	case "DEL":
 		n := int64(0)
@@ -588,6 +603,9 @@ func (m *lockMon) applyLog() {
 				att.reached = true
 			}
 			if len(ex.Sub) > 0 && strings.ToUpper(ex.Sub[0].Argv[0]) == "SET" && !ex.Sub[0].Reply.IsErr() {
+				if att != nil && att.sess != nil {
+					att.sess.actEnd = m.e.sim.Step // an acquire script of that call reached the server
+				}
 				if isOK(ex.Sub[0].Reply) {
 					if att != nil {
 						att.setOK++
@@ -719,6 +737,26 @@ func (m *lockMon) onStep(s *sched.Sim) error {
 			}
 		}
 	}
+	// holders that have lost a key: is another call of the same Locker on the same name under way?
+	for _, h := range m.sess {
+		if h.state == 1 {
+			h.actEnd = s.Step
+		}
+	}
+	for _, h := range m.sess {
+		if h.state == 2 && h.doneStep < 0 && h.att != nil && h.att.lost && !h.sibling {
+			for _, h2 := range m.sess {
+				if h2 == h || h2.state == 0 || h2.op.Locker != h.op.Locker || h2.op.Name != h.op.Name {
+					continue
+				}
+				// acquiring (each call empties a key's channel before trying the key), or holding (its monitors listen on
+				// the same channels; one notification wakes one listener) during this call's lifetime
+				if h2.actEnd >= h.startStep || (h2.state == 2 && (h2.doneStep < 0 || h2.doneStep >= h.startStep)) {
+					h.sibling = true
+				}
+			}
+		}
+	}
 	// judge
 	for _, name := range m.p.Names {
 		var live []*lockSess
@@ -770,8 +808,15 @@ func (m *lockMon) onStep(s *sched.Sim) error {
 			// runs without connection faults (a lost connection loses pushes; then only the timer is left).
 			if s.IdleFor() > 0 && h.releaseStep < 0 && h.retStep < s.Step && !m.anyFaultFired(s) &&
 				(h.att.lostWhy == "deleted by another client" || h.att.lostWhy == "overwritten" || h.att.lostWhy == "flushed") {
-				m.flag(h, "loss-not-noticed-when-idle", "%s: owns %d of %d keys (majority %d; first loss: %s) and its lock context is still live at step %d although nothing but the clock can make progress (idle for %v of fake time): the invalidation did not cancel it, only its next extension timer can",
-					m.describe(h), own, m.total, m.p.Majority, h.att.lostWhy, s.Step, s.IdleFor())
+				rule, why := "loss-not-noticed-when-idle", "the invalidation did not cancel it"
+				if h.sibling {
+					// the notification channels are per Locker, name and key index, shared by every call of that Locker on
+					// the name; each call empties the channel of a key before it tries the key (also when it only passes the
+					// key by after an earlier refusal) and thereby takes away the notification meant for the holder's monitor
+					rule, why = "loss-not-noticed-when-idle-sibling-call", "another call of the same Locker on this name was acquiring or holding and took the notification from the shared channel"
+				}
+				m.flag(h, rule, "%s: owns %d of %d keys (majority %d; first loss: %s) and its lock context is still live at step %d although nothing but the clock can make progress (idle for %v of fake time): %s, only its next extension timer can",
+					m.describe(h), own, m.total, m.p.Majority, h.att.lostWhy, s.Step, s.IdleFor(), why)
 			} else if s.IdleFor() > 0 && h.releaseStep < 0 {
 				m.out.notJudged("idle-live-holder-below-majority:" + h.att.lostWhy)
 			}
@@ -805,7 +850,11 @@ func execLock(t *testing.T, plan any, out *Outcome) {
 	p := plan.(*LockPlan)
 	e := newSimEnv(out.Seed, p.Sim, out)
 	s := e.sim
-	s.Cfg.S2CFrameWise = true
+	// (variant fresh delivers the reply of an acquisition and the invalidation behind it in ONE read: whether the
+	// acquiring goroutine or the connection's reader gets to the key's notification channel first is then up to the Go
+	// runtime - with GOMAXPROCS 1, which the part is run with, the reader finishes its read first. Either order must be
+	// handled by the code under test, so the oracle does not depend on it; only replay hashes may)
+	s.Cfg.S2CFrameWise = p.Variant != "fresh"
 	s.Cfg.GroupResume = true
 	s.W.ScriptReadsTrack = true
 	rueidis.VerifYieldFullIdentity(true)
@@ -980,10 +1029,15 @@ func execLock(t *testing.T, plan any, out *Outcome) {
 				}
 				m.freshDone[gi] = true
 				var keys []string
-				for i := 0; i < m.total; i++ {
-					if k := m.keyOf(g.Name, i); m.mirror[k].val == val {
-						keys = append(keys, k)
+				if len(g.Idx) > 0 {
+					// every key that carries the value, the older ones too (their monitors are running and notice)
+					for i := 0; i < m.total; i++ {
+						if k := m.keyOf(g.Name, i); m.mirror[k].val == val {
+							keys = append(keys, k)
+						}
 					}
+				} else {
+					keys = append(keys, m.freshKeys[g.Name]...) // only the keys that were set a step ago
 				}
 				m.mu.Unlock()
 				for _, k := range keys {
